@@ -6,6 +6,7 @@ import Orx.GenThms.Vec
 import Orx.GenThms.Arr
 import Orx.GenThms.Range
 import Orx.GenThms.Iter
+import Orx.GenThms.Ctor
 /-! # C11 try_get_len / has_more are truthful; 'No' is definitive -/
 namespace Orx.Props.C11
 open Orx Orx.KS
@@ -76,5 +77,22 @@ theorem source_iter_try_get_len (init : Option Nat) (R Y : Nat) (C : Bool) (evs 
       .ok (IWF.lenOut init C R)
         (ist R Y C (evs ++ [.ld .C .seqcst (if C then 1 else 0)] ++ (if C = false ∧ init.isSome then [.ld .R .acquire R] else []))) :=
   iter_try_get_len init R Y C evs
+
+
+open Orx.RS Orx.Gen Orx.GenThms in
+/-- **which wrapped iterators have a known size, as in the source** (`ConIterOfIter::new`): exactly those whose `size_hint()`
+is exact (`lower == upper`) — then `try_get_len` reports `Some`/`has_more` `Yes|No` (`source_try_get_len`), for every value of
+the bound including the largest word; every other hint (no upper bound, or `lower < upper`) gives the unknown-size wrapper
+whose answers are `None` / `Maybe` until the end has been seen -/
+theorem source_iter_new_records_exact_hints (lo : Nat) (hi : Option Nat) (s : St) :
+    NewIter.new ⟨(lo, hi)⟩ s = .ok ⟨⟨(lo, hi)⟩, (if hi = some lo then some lo else none), ⟨0⟩, ⟨0⟩, false⟩ s := by
+  rw [iter_new]
+  cases hi with
+  | none => simp [claimedLen]
+  | some u =>
+    by_cases e : lo = u
+    · subst e; simp [claimedLen]
+    · have : ¬ u = lo := fun h => e h.symm
+      simp [claimedLen, e, this]
 
 end Orx.Props.C11
